@@ -372,6 +372,9 @@ package fontscan
 //
 //@ func fileFootprints.deserializeFrom C16
 //@   mode int
+//   the "EOF" rejection is only taken when the eight bytes of the modification time are really missing: an entry
+//   without footprints (a file that is not a font) is exactly path + time and must be accepted
+//@   assert_at call New#1 : [rejects-only-truncated-entries] len(src) < n+8
 //@   modifies unspecified
 //
 // Incremental refresh: an indexed entry is reused only if the file's modification time is exactly the indexed one;
